@@ -450,6 +450,17 @@ fn compile_expr_cached(expr: &str) -> Option<(vrl::compiler::Program, bool)> {
 }
 
 pub fn eval_case(case: &J) -> J {
+    // C36: the same expressions under several configured timezones
+    if let Some(tzs) = case.get("tzs").and_then(|t| t.as_array()) {
+        let mut by = serde_json::Map::new();
+        for tz in tzs {
+            let mut c = case.clone();
+            c.as_object_mut().unwrap().remove("tzs");
+            c["tz"] = tz.clone();
+            by.insert(tz.as_str().unwrap_or("UTC").to_owned(), eval_case(&c)["r"].clone());
+        }
+        return json!({"e": "tzcmp", "law": case["law"], "inp": case["inp"], "src": case["law"], "by_tz": J::Object(by)});
+    }
     let tzname = case["tz"].as_str().unwrap_or("UTC");
     let tz = match tzname {
         "local" => TimeZone::Local,
